@@ -244,6 +244,14 @@ func (c *Ctx) ruleErrorOnOwnDirective(rule string) {
 		f *types.Func
 		i int
 	}
+	handlerReach := map[*types.Func]bool{}
+	for _, hf := range disp {
+		if h := c.fnOf(hf); h != nil {
+			for _, g := range c.reachableInPkg(h) {
+				handlerReach[g.Obj] = true
+			}
+		}
+	}
 	verdict := map[fnParam]string{} // "" = own directive, otherwise why not
 	var ownParam func(f *Fn, e ast.Expr, depth int) string
 	ownParam = func(f *Fn, e ast.Expr, depth int) string {
@@ -287,6 +295,11 @@ func (c *Ctx) ruleErrorOnOwnDirective(rule string) {
 		for _, cs := range sites {
 			a := argFor(cs, idx)
 			if a == nil {
+				continue
+			}
+			// a helper shared with code that no handler reaches (the compile phases walk the directives themselves) is
+			// judged through the handlers' call sites only
+			if !handlerReach[cs.g.Obj] {
 				continue
 			}
 			if why := ownParam(cs.g, a, depth+1); why != "" {
